@@ -113,6 +113,63 @@ Proof.
       * apply (R' k); assumption.
 Qed.
 
+(* ---- out[i].set_zero() for the rows that were not evaluated ---- *)
+Lemma zero_rest_ok (outs0 : list nat) : forall (ev : list bool) (sps : list space) (s : sR),
+  wf_store s -> NoDup outs0 -> length outs0 = length sps -> length ev = length outs0 ->
+  (forall k o sp, nth_error outs0 k = Some o -> nth_error sps k = Some sp ->
+      (exists d, rd s o = Some (sp, d)) /\ (nth k ev false = false -> zero_safe s o)) ->
+  exists s', zero_rest outs0 ev s = Ok tt s' /\ wf_store s' /\ ext s s' outs0 /\
+    (forall k o sp, nth_error outs0 k = Some o -> nth_error sps k = Some sp ->
+       if nth k ev false then rd s' o = rd s o else rd s' o = Some (sp, cl (zvec sp))).
+Proof.
+  induction outs0 as [|o r IH]; intros ev sps s W ND L Lev H.
+  - exists s. splits; [destruct ev; reflexivity | exact W | apply ext_refl |].
+    intros k o sp E. destruct k; discriminate.
+  - destruct sps as [|sp sps]; [discriminate|]. destruct ev as [|b ev]; [discriminate|].
+    cbn [length] in L, Lev. apply NoDup_cons_iff in ND as [No ND].
+    destruct (H 0%nat o sp eq_refl eq_refl) as ((d & Eo) & Zo). cbn [nth] in Zo.
+    cbn [zero_rest].
+    assert (exists s1, (if b then ret tt else do_set_zero o) s = Ok tt s1 /\ wf_store s1 /\ ext s s1 [o] /\
+              (if b then rd s1 o = rd s o else rd s1 o = Some (sp, cl (zvec sp))))
+      as (s1 & Hs1 & W1 & E1 & R1).
+    { destruct b.
+      - exists s. splits; [reflexivity | exact W | apply ext_refl | reflexivity].
+      - rewrite (set_zero_safe s o sp d W Eo (Zo eq_refl)). eexists. splits; [reflexivity | | |].
+        + apply wf_upd; [exact W | rewrite cl_length; apply repeat_length].
+        + eapply ext_upd; exact Eo.
+        + apply rd_upd_same. eapply rd_lt; exact Eo. }
+    rewrite (bind_Ok _ _ _ _ _ Hs1).
+    assert (Other : forall o', In o' r -> rd s1 o' = rd s o').
+    { intros o' I. destruct (Nat.eq_dec o' o) as [->|N]; [contradiction|].
+      destruct (Nat.lt_ge_cases o' (length s)) as [Lt|Ge].
+      - eapply ext_same; [exact E1 | exact Lt | intros [Q|[]]; congruence].
+      - (* not an object of s: cannot be a part *) exfalso.
+        apply In_nth_error in I as (k & Ek). destruct (nth_error sps k) as [sp'|] eqn:Es.
+        + destruct (H (S k) o' sp' Ek Es) as ((d' & Ed') & _). apply rd_lt in Ed'. lia.
+        + apply nth_error_None in Es. assert (nth_error r k <> None) by congruence.
+          apply nth_error_Some in H0. lia. }
+    destruct (IH ev sps s1 W1 ND ltac:(lia) ltac:(lia)) as (s' & Hs' & W' & E' & R').
+    { intros k o' sp' Ek Esp. destruct (H (S k) o' sp' Ek Esp) as ((d' & Eo') & Z'). cbn [nth] in Z'.
+      assert (Io : In o' r) by (eapply nth_error_In; exact Ek).
+      split; [exists d'; rewrite (Other o' Io); exact Eo'|].
+      intros Hf. destruct (Z' Hf) as [Hg | [(sp2 & d2 & E2 & Hl) | (sp2 & d2 & E2)]].
+      - left; exact Hg.
+      - right; left. exists sp2, d2. rewrite (Other o' Io). split; assumption.
+      - right; right. exists sp2, d2. rewrite (Other o' Io). exact E2. }
+    exists s'. splits; [exact Hs' | exact W' | |].
+    + eapply ext_trans; [exact E1 | exact E' | intros i [<-|[]]; left; reflexivity | intros i _ I; right; exact I].
+    + intros k o' sp' Ek Esp. destruct k as [|k].
+      * cbn in Ek, Esp. injection Ek as <-. injection Esp as <-. cbn [nth].
+        assert (Keep : rd s' o = rd s1 o).
+        { destruct (Nat.lt_ge_cases o (length s1)) as [Lt|Ge].
+          - eapply ext_same; [exact E' | exact Lt | exact No].
+          - exfalso. apply rd_lt in Eo. pose proof (ext_len _ _ _ E1). lia. }
+        destruct b; rewrite Keep; exact R1.
+      * cbn [nth]. pose proof (R' k o' sp' Ek Esp) as Rk.
+        assert (Io : In o' r) by (eapply nth_error_In; exact Ek).
+        destruct (nth k ev false); [rewrite Rk; apply Other; exact Io | exact Rk].
+Qed.
+
 (* ================= ProductSpaceOperator: the two loops ================= *)
 (* an entry together with the function its operator denotes *)
 Definition sent := (@entry VR * (list R -> list R))%type.
@@ -301,4 +358,157 @@ Proof.
     eapply ext_trans; [exact E02 | exact E' | intros i [<-|[]]; exact Ioi | intros i _ I; exact I].
 Qed.
 End Loops.
+
+(* ================= ProductSpaceOperator: the public results ================= *)
+Definition zrow (rans : list space) (k : nat) : list R := zvec (nth k rans (0, 0)%nat).
+(* row i of op(x): zeros, then += for every entry of the row, in COO order *)
+Definition oop_rows (rans : list space) (xd : nat -> list R) (se : list sent) : nat -> list R :=
+  fold_left (stepo xd) se (zrow rans).
+(* row i of op(x, out=y): the first entry of the row is written, later ones added; zeros if the row is empty *)
+Definition ip_rows (rans : list space) (xd : nat -> list R) (se : list sent) (k : nat) : list R :=
+  match fold_left (stepi xd) se (fun _ => None) k with Some a => a | None => zrow rans k end.
+
+Lemma nth_error_seq a n i : (i < n)%nat -> nth_error (seq a n) i = Some (a + i)%nat.
+Proof.
+  revert a i; induction n as [|n IH]; intros a [|i] L; cbn; try lia.
+  - f_equal. lia.
+  - rewrite IH by lia. f_equal. lia.
+Qed.
+Lemma nth_error_seq_inv a n i o : nth_error (seq a n) i = Some o -> o = (a + i)%nat /\ (i < n)%nat.
+Proof.
+  intros E. assert (L : (i < n)%nat).
+  { rewrite <- (seq_length n a). apply nth_error_Some. congruence. }
+  rewrite (nth_error_seq a n i L) in E. injection E as <-. split; [reflexivity | exact L].
+Qed.
+
+Theorem pso_oop_ok ro doms rans xs xd (se : list sent) (s : sR) :
+  Forall (ent_ok ro doms rans) se -> args_ok ro doms xs xd s ->
+  exists s', pso_oop junk (map fst se) rans xs s = Ok (seq (length s) (length rans)) s' /\
+    (forall i ri, nth_error rans i = Some ri ->
+        rd s' (length s + i) = Some (ri, cl (oop_rows rans xd se i))) /\
+    ext s s' [] /\ wf_store s'.
+Proof.
+  intros HF HA. unfold pso_oop. rewrite (bind_Ok _ _ _ _ _ (alloc_zeros_eq rans s)).
+  set (outs := seq (length s) (length rans)). set (s1 := s ++ zcells rans).
+  pose proof HA as (W & G & X & Lx).
+  assert (W1 : wf_store s1) by (apply wf_app; exact W).
+  assert (E01 : ext s s1 []) by apply ext_app.
+  assert (HO : outs_static ro rans xs outs).
+  { unfold outs_static, outs. splits.
+    - apply seq_NoDup.
+    - apply seq_length.
+    - intros o I Ix. apply in_seq in I. apply In_nth_error in Ix as (j & Ej).
+      destruct (nth_error doms j) as [dj|] eqn:Ed.
+      + pose proof (X _ _ _ Ej Ed) as Q. apply rd_lt in Q. lia.
+      + apply nth_error_None in Ed. assert (nth_error xs j <> None) by congruence.
+        apply nth_error_Some in H. lia.
+    - intros o I Ir. apply in_seq in I. apply (good_lt _ _ _ G) in Ir. lia. }
+  assert (HA1 : args_ok ro doms xs xd s1).
+  { apply (args_ok_ext ro doms xs xd s s1 []); [exact HA | exact E01 | exact W1 | intros i []]. }
+  assert (HR1 : rows_hold rans outs s1 (zrow rans)).
+  { intros i o ri Ei Eri. unfold outs in Ei. apply nth_error_seq_inv in Ei as (-> & Li).
+    unfold s1. rewrite (rd_zcells s rans i ri Eri). unfold zrow. rewrite (nth_error_nth _ _ _ Eri).
+    split; [reflexivity | apply repeat_length]. }
+  destruct (oop_loop_ok ro doms rans xs outs xd se s1 (zrow rans) HF HO HA1 HR1) as (s' & Hl & HA' & HR' & E').
+  rewrite (bind_Ok _ _ _ _ _ Hl). cbn [ret]. exists s'. splits; [reflexivity | | | apply HA'].
+  - intros i ri Eri. assert (Li : (i < length rans)%nat) by (apply nth_error_Some; congruence).
+    apply (HR' i (length s + i)%nat ri); [apply nth_error_seq; exact Li | exact Eri].
+  - eapply ext_trans; [exact E01 | exact E' | intros i [] |].
+    intros i Li I. unfold outs in I. apply in_seq in I. lia.
+Qed.
+
+Theorem pso_ip_ok ro doms rans xs outs xd (se : list sent) (s : sR) :
+  Forall (ent_ok ro doms rans) se -> outs_static ro rans xs outs -> args_ok ro doms xs xd s ->
+  (forall i o ri, nth_error outs i = Some o -> nth_error rans i = Some ri -> exists d, rd s o = Some (ri, d)) ->
+  (forall o, In o outs -> zero_safe s o) ->
+  exists s', pso_ip junk (map fst se) xs outs s = Ok tt s' /\
+    (forall i o ri, nth_error outs i = Some o -> nth_error rans i = Some ri ->
+        rd s' o = Some (ri, cl (ip_rows rans xd se i))) /\
+    ext s s' outs /\ wf_store s'.
+Proof.
+  intros HF HO HA Hex Hz. unfold pso_ip.
+  assert (HR0 : rows_ip rans outs s s (fun _ => None) (repeat false (length outs))).
+  { split; [apply repeat_length|]. intros i o ri Ei Eri. splits; [apply nth_repeat | reflexivity | apply (Hex i o ri Ei Eri)]. }
+  destruct (ip_loop_ok ro doms rans xs outs xd s se s (fun _ => None) _ HF HO HA HR0) as (ev' & s1 & Hl & HA1 & HR1 & E1).
+  rewrite (bind_Ok _ _ _ _ _ Hl).
+  destruct HO as (ND & Lo & Ox & Oro). destruct HR1 as (Lev & HR1). destruct HA1 as (W1 & G1 & X1 & Lx1).
+  destruct (zero_rest_ok outs ev' rans s1 W1 ND Lo Lev) as (s2 & Hz2 & W2 & E2 & R2).
+  { intros k o sp Ek Esp. pose proof (HR1 k o sp Ek Esp) as Hk.
+    destruct (fold_left (stepi xd) se (fun _ => None) k) as [a|].
+    - destruct Hk as (Hev & Eo & _). split; [eexists; exact Eo | rewrite Hev; discriminate].
+    - destruct Hk as (Hev & Eo & (d & Ed)). split; [exists d; congruence|]. intros _.
+      assert (Io : In o outs) by (eapply nth_error_In; exact Ek).
+      destruct (Hz o Io) as [Hg | [(sp2 & d2 & E2' & Hl') | (sp2 & d2 & E2')]].
+      + left; exact Hg.
+      + right; left. exists sp2, d2. rewrite Eo. split; assumption.
+      + right; right. exists sp2, d2. rewrite Eo. exact E2'. }
+  exists s2. splits; [exact Hz2 | | | exact W2].
+  - intros i o ri Ei Eri. pose proof (HR1 i o ri Ei Eri) as Hk. pose proof (R2 i o ri Ei Eri) as Rk.
+    unfold ip_rows. destruct (fold_left (stepi xd) se (fun _ => None) i) as [a|].
+    + destruct Hk as (Hev & Eo & _). rewrite Hev in Rk. rewrite Rk. exact Eo.
+    + destruct Hk as (Hev & _). rewrite Hev in Rk. unfold zrow. rewrite (nth_error_nth _ _ _ Eri). exact Rk.
+  - eapply ext_trans_same; eassumption.
+Qed.
+
+(* the two row formulas agree (0 + v = v, entry by entry) when every entry's value has the
+   length of its row -- which the den-otations of well-formed trees do *)
+Lemma radd_zeros_l n v : length v = n -> radd (repeat 0%R n) v = v.
+Proof.
+  intros <-. unfold radd. induction v as [|a v IH]; cbn; [reflexivity|]. rewrite IH. f_equal. lra.
+Qed.
+Lemma rows_agree rans xd (se : list sent) :
+  (forall p ri, In p se -> nth_error rans (en_row (fst p)) = Some ri ->
+                length (snd p (xd (en_col (fst p)))) = fst ri) ->
+  forall k, (k < length rans)%nat -> ip_rows rans xd se k = oop_rows rans xd se k.
+Proof.
+  intros Hlen k Lk. unfold ip_rows, oop_rows.
+  assert (Gen : forall se' acci acco,
+             (forall p ri, In p se' -> nth_error rans (en_row (fst p)) = Some ri ->
+                           length (snd p (xd (en_col (fst p)))) = fst ri) ->
+             (match acci k with Some a => acco k = a | None => acco k = zrow rans k end) ->
+             match fold_left (stepi xd) se' acci k with
+             | Some a => fold_left (stepo xd) se' acco k = a
+             | None => fold_left (stepo xd) se' acco k = zrow rans k
+             end).
+  { induction se' as [|p se' IH]; intros acci acco Hl Hk; [exact Hk|].
+    cbn [fold_left]. apply IH; [intros q ri I; apply Hl; right; exact I|].
+    unfold stepi, stepo. destruct (Nat.eqb_spec k (en_row (fst p))) as [->|N]; [|exact Hk].
+    destruct (nth_error rans (en_row (fst p))) as [ri|] eqn:Er.
+    2:{ apply nth_error_None in Er. lia. }
+    pose proof (Hl p ri (or_introl eq_refl) Er) as Lv.
+    destruct (acci (en_row (fst p))) as [a|]; [rewrite Hk; reflexivity|].
+    rewrite Hk. unfold zrow, zvec. rewrite (nth_error_nth _ _ _ Er). apply radd_zeros_l. exact Lv. }
+  specialize (Gen se (fun _ => None) (zrow rans) Hlen eq_refl).
+  destruct (fold_left (stepi xd) se (fun _ => None) k); symmetry; exact Gen.
+Qed.
+
+(* ================= ComponentProjectionAdjoint in place ================= *)
+Theorem cpadj_ip_ok i x (outs : list nat) (sps : list space) (s : sR) dx spi oi :
+  wf_store s -> NoDup outs -> length outs = length sps -> ~ In x outs ->
+  rd s x = Some (spi, cl dx) -> nth_error outs i = Some oi -> nth_error sps i = Some spi ->
+  (forall k o sp, nth_error outs k = Some o -> nth_error sps k = Some sp ->
+      (exists d, rd s o = Some (sp, d)) /\ zero_safe s o) ->
+  exists s', cpadj_ip i x outs s = Ok tt s' /\ wf_store s' /\ ext s s' outs /\
+    rd s' oi = Some (spi, cl dx) /\
+    (forall k o sp, k <> i -> nth_error outs k = Some o -> nth_error sps k = Some sp ->
+        rd s' o = Some (sp, cl (zvec sp))).
+Proof.
+  intros W ND L Nx Ex Eoi Espi H. unfold cpadj_ip.
+  destruct (set_zero_all_ok outs sps s W ND L H) as (s1 & Hz & W1 & E1 & R1).
+  rewrite (bind_Ok _ _ _ _ _ Hz). unfold nthid. rewrite Eoi. cbn [lift_opt].
+  rewrite (bind_Ok _ _ s1 oi s1) by reflexivity.
+  assert (Ex1 : rd s1 x = Some (spi, cl dx)) by (eapply ext_rd; [exact E1 | exact Ex | exact Nx]).
+  rewrite (bind_Ok _ _ _ _ _ (data_of_eq _ _ _ _ Ex1)).
+  pose proof (R1 i oi spi Eoi Espi) as Eo1.
+  rewrite (set_data_eq _ _ _ _ (cl dx) Eo1).
+  assert (Ioi : In oi outs) by (eapply nth_error_In; exact Eoi).
+  eexists. splits; [reflexivity | | | |].
+  - apply wf_upd; [exact W1 | apply (W1 _ _ _ Ex1)].
+  - eapply ext_trans; [exact E1 | eapply ext_upd; exact Eo1 | intros k I; exact I | intros k _ [<-|[]]; exact Ioi].
+  - apply rd_upd_same. eapply rd_lt; exact Eo1.
+  - intros k o sp Nk Ek Esp.
+    assert (No : o <> oi).
+    { intros ->. apply Nk. eapply NoDup_nth_error; [exact ND | | congruence]. apply nth_error_Some. congruence. }
+    rewrite rd_upd_other by exact No. apply (R1 k o sp Ek Esp).
+Qed.
 End PProofs.
